@@ -9,7 +9,8 @@ import sys
 from jv import elf, harness, real
 
 LEVEL = "exploration"
-RULE = ("A pool of ~35 complete compile-and-match operations chosen so that every piece of process-global or per-compilation "
+RULE = ("A pool of ~37 hand-picked complete compile-and-match operations plus 10 (quick) / 24 (thorough) operations drawn at "
+        "random per shard (rules of all operator kinds with random config, captures and factored macros). The hand-picked ones are chosen so that every piece of process-global or per-compilation "
         "state flips a verdict if it leaks: the 4 full-match flag settings on one near-miss listing; two valid_addr_range "
         "settings and none on a listing where only tagging decides; sections lists vs none on a multi-section ELF; style "
         "intel/att/absent on a binary; rules with 0-3 capture names (instruction, operand, register family); one macro name "
@@ -22,7 +23,7 @@ RULE = ("A pool of ~35 complete compile-and-match operations chosen so that ever
         "so state cached by path is exposed. Diagnostic hook H4: the singleton's four entries are compared with a pure function of the current rule's config "
         "after every operation (reported in the witness only). Non-trivial/distinct = distinct ordered (predecessor, successor) "
         "pairs observed in histories.")
-FLOOR = {"quick": 800, "thorough": 1000}
+FLOOR = {"quick": 1000, "thorough": 1500}
 ANCHOR_HINTS = ["global_definitions", "yaml2regex", "capture_manager", "match.py", "gnu_objdump_disassembler", "macro_expander"]
 REQUIRED_EVENTS = ["history_results_compared", "fresh_results"]
 SHARDS = {"quick": 4, "thorough": 16}
@@ -103,6 +104,47 @@ def pool():
     return ops
 
 
+def random_ops(rng, k):
+    """Further operations drawn at random: rules of all operator kinds on a synthetic listing with random
+    config (flags, valid_addr_range), captures and a factored macro - state nobody thought of may leak too."""
+    from jv import listing as L, rulegen as RG, macrogen
+    insts = L.gen_listing(rng, 25, start=0x401000)
+    text = L.render(insts, rng)
+    ops = []
+    tries = 0
+    while len(ops) < k and tries < 200:
+        tries += 1
+        feat = RG.Feat(operands=0.7, groups=0.25, nots=0.15, ogroups=0.15, icaps=0.1, ocaps=0.2, regfam=0.2, times_item=0.2,
+                       group_times=0.2, deref=0.3, max_depth=2, max_spine=rng.choice([1, 2, 3]))
+        pattern = RG.RuleGen(rng, insts, feat).rule()
+        if not pattern or RG.pattern_cost(pattern) > 150:
+            continue
+        doc = {}
+        cfg = {}
+        if rng.random() < 0.5:
+            cfg["mnemonics-full-match"] = rng.random() < 0.5
+        if rng.random() < 0.5:
+            cfg["operands-full-match"] = rng.random() < 0.5
+        if rng.random() < 0.3:
+            cfg["valid_addr_range"] = {"min": "0x401000", "max": hex(0x401000 + rng.choice([8, 0x40, 0xfffff]))}
+        if cfg:
+            doc["config"] = cfg
+        macros = []
+        if rng.random() < 0.4:
+            inl, mac, ms, _ = macrogen.factor(rng, pattern, ["%rax", "0x10"], rng.randint(1, 3))
+            if ms:
+                pattern = mac
+                if rng.random() < 0.5:
+                    macros = [{"macros": ms}]
+                else:
+                    doc["macros"] = ms
+        doc["pattern"] = pattern
+        ops.append({"name": f"rand-{len(ops)}", "rule": real.dump_rule(doc), "macros": [real.dump_rule(m) for m in macros],
+                    "input": "rand", "mode": list(rng.choice([("bool", "first", False), ("list", "all", True), ("list", "first", False)])),
+                    "input_text": text})
+    return ops
+
+
 def materialise(ws, ops):
     near = ws.write("near.s", NEAR)
     elfp = ws.write("obj.bin", the_elf())
@@ -110,7 +152,11 @@ def materialise(ws, ops):
     for i, op in enumerate(ops):
         rp = ws.write(f"op{i}.yaml", op["rule"])
         mf = [ws.write(f"op{i}_m{j}.yaml", m) for j, m in enumerate(op["macros"])]
-        out.append((rp, mf or None, near if op["input"] == "near" else elfp, op["input"] == "elf", op["mode"]))
+        if op["input"] == "rand":
+            inp = ws.write(f"op{i}_rand.s", op["input_text"])
+        else:
+            inp = near if op["input"] == "near" else elfp
+        out.append((rp, mf or None, inp, op["input"] == "elf", op["mode"]))
     return out
 
 
@@ -215,6 +261,7 @@ def run_history(ctx, ops, mats, fresh, seq, label, ws=None):
         if r != fresh[i]:
             hist = [ops[j]["name"] for j in seq[max(0, pos - 3):pos + 1]]
             ctx.disagreement({"history": [ops[j]["name"] for j in seq[:pos + 1]], "op": ops[i], "fresh": fresh[i], "in_history": r,
+                              "random_ops": [o for o in ops if o["name"].startswith("rand-")],
                               "first_leaked_key": leak},
                              f"operation {ops[i]['name']} returned {str(r)[:160]} at position {pos} of a history (...{hist}) but {str(fresh[i])[:160]} "
                              f"when executed first in a fresh process; singleton key differing from current config: {leak}")
@@ -226,10 +273,13 @@ def run_history(ctx, ops, mats, fresh, seq, label, ws=None):
 def run_shard(ctx):
     ws = real.Workspace()
     ops = pool()
+    nfixed = len(ops)
+    ops += random_ops(ctx.rng, 10 if ctx.tier == "quick" else 24)
     mats = materialise(ws, ops)
     fresh = fresh_table(ctx, ws, ops, mats)
     n = len(ops)
     rng = ctx.rng
+    ctx.event("random_operations_in_pool", n - nfixed)
     if ctx.shard == 0:
         ctx.sample("fresh-table", {ops[i]["name"]: fresh[i] for i in range(n)})
     # every ordered pair at least once, split over shards
@@ -252,7 +302,7 @@ def run_shard(ctx):
 
 def replay(ctx, case):
     ws = real.Workspace()
-    ops = pool()
+    ops = pool() + [o for o in case.get("random_ops", [])]
     names = [o["name"] for o in ops]
     mats = materialise(ws, ops)
     fresh = fresh_table(ctx, ws, ops, mats)
